@@ -31,6 +31,8 @@ pub enum SeedSpec {
     Grammar { seed: u64 },
     /// muxer output whose chunks are stored in a random physical order (offsets rewritten)
     MuxShuffled { seed: u64 },
+    /// many small structures of one kind (hundreds of traks, thousands of fragments / items)
+    Scale { seed: u64 },
 }
 
 impl SeedSpec {
@@ -45,6 +47,7 @@ impl SeedSpec {
             SeedSpec::Crash { .. } => "crash",
             SeedSpec::Grammar { .. } => "grammar",
             SeedSpec::MuxShuffled { .. } => "mux_shuffled",
+            SeedSpec::Scale { .. } => "scale",
         }
     }
 }
@@ -707,6 +710,10 @@ pub fn build(spec: &SeedSpec) -> SeedImage {
             let (b, l) = grammar_image(*seed);
             SeedImage { bytes: b, init_len: l }
         }
+        SeedSpec::Scale { seed } => {
+            let (b, l) = scale_image(*seed);
+            SeedImage { bytes: b, init_len: l }
+        }
         SeedSpec::MuxShuffled { seed } => {
             let b = mux_bytes(&small_scenario(*seed));
             let sh = shuffle_chunks(&b, *seed).unwrap_or(b);
@@ -717,6 +724,9 @@ pub fn build(spec: &SeedSpec) -> SeedImage {
 
 /// Swarm choice of a seed image.
 pub fn gen_spec(r: &mut Rng) -> SeedSpec {
+    if r.chance(1, 120) {
+        return SeedSpec::Scale { seed: r.below(1 << 30) };
+    }
     match r.below(28) {
         20..=25 => SeedSpec::Grammar { seed: r.below(1 << 40) },
         26 | 27 => SeedSpec::MuxShuffled { seed: r.below(4096) },
@@ -1136,6 +1146,79 @@ fn g_moof(r: &mut Rng, seq: u32, track_ids: &[u32]) -> Vec<u8> {
         kids.remove(0); // no mfhd
     }
     bx(b"moof", &kids.concat())
+}
+
+/// "Scale" images: many small structures of the same kind (tens to hundreds of tiny traks,
+/// thousands of empty movie fragments, long runs of metadata items, hundreds of sample entries):
+/// behaviour that is quadratic in the number of boxes only shows at this size.
+pub fn scale_image(seed: u64) -> (Vec<u8>, Option<usize>) {
+    let mut r = Rng::new(seed ^ 0x5CA1E);
+    // valid building blocks from the real muxer: ftyp, mdat and the trak boxes of a small history
+    let base = mux_bytes(&small_scenario(seed));
+    let nodes = walk(&base);
+    let top = |t: &[u8; 4]| nodes.iter().find(|n| n.depth == 0 && n.is(t));
+    let (Some(ftyp), Some(mdat), Some(moov)) = (top(b"ftyp"), top(b"mdat"), top(b"moov")) else {
+        return (base, None);
+    };
+    let traks: Vec<&Node> = nodes.iter().filter(|n| n.depth == 1 && n.is(b"trak")).collect();
+    let mvhd = nodes.iter().find(|n| n.depth == 1 && n.is(b"mvhd"));
+    let (Some(mvhd), false) = (mvhd, traks.is_empty()) else {
+        return (base, None);
+    };
+    let _ = moov;
+    let ntrak = match r.below(4) {
+        0 => 1 + r.below(3),
+        1 => 20 + r.below(40),
+        _ => 60 + r.below(140),
+    } as u32;
+    let mut moov_kids: Vec<Vec<u8>> = vec![base[mvhd.start..mvhd.end()].to_vec()];
+    let mut ids = Vec::new();
+    for i in 0..ntrak {
+        let src = traks[r.usize_below(traks.len())];
+        let mut t = base[src.start..src.end()].to_vec();
+        // patch tkhd.track_id (tkhd is the first child of a muxer-written trak)
+        if let Some(tk) = nodes.iter().find(|n| n.parent.map(|p| std::ptr::eq(&nodes[p], src)).unwrap_or(false) && n.is(b"tkhd")) {
+            let body = tk.body() - src.start;
+            let v1 = t[body] == 1;
+            let at = body + if v1 { 20 } else { 12 };
+            let id = if r.chance(1, 30) { 1 + r.below(3) as u32 } else { i + 1 };
+            t[at..at + 4].copy_from_slice(&id.to_be_bytes());
+            ids.push(id);
+        }
+        moov_kids.push(t);
+        if r.chance(1, 40) {
+            moov_kids.push(g_trak(&mut r, i + 1000)); // an odd one among the regular ones
+        }
+    }
+    moov_kids.push(bx(b"mvex", &full(b"trex", 0, 0, &cat(&[&1u32.to_be_bytes(), &1u32.to_be_bytes(), &0u32.to_be_bytes(), &0u32.to_be_bytes(), &0u32.to_be_bytes()]))));
+    if r.chance(1, 3) {
+        // a long run of metadata items
+        let n = 100 + r.below(900);
+        let mut items = Vec::new();
+        for i in 0..n {
+            let t: [u8; 4] = *r.pick(&[[0xA9, b'n', b'a', b'm'], [0xA9, b'd', b'a', b'y'], *b"desc", *b"covr", *b"zzzz"]);
+            items.extend(bx(&t, &data_box(1, &[b'a' + (i % 26) as u8; 3])));
+        }
+        let meta = full(b"meta", 0, 0, &cat(&[&hdlr_box(b"mdir", b""), &bx(b"ilst", &items)]));
+        moov_kids.push(bx(b"udta", &meta));
+    }
+    let moov2 = bx(b"moov", &moov_kids.concat());
+    // ftyp, mdat at their original offsets (chunk offsets stay valid), the new moov after them
+    let mut out = cat(&[&base[ftyp.start..ftyp.end()], &base[mdat.start..mdat.end()], &moov2]);
+    let init_len = out.len();
+    let nmoof = match r.below(3) {
+        0 => 0,
+        1 => 200 + r.below(800),
+        _ => 2000 + r.below(6000),
+    };
+    for seq in 0..nmoof {
+        if r.chance(1, 8) {
+            out.extend(g_moof(&mut r, seq as u32 + 1, &ids));
+        } else {
+            out.extend(bx(b"moof", &full(b"mfhd", 0, 0, &(seq as u32 + 1).to_be_bytes())));
+        }
+    }
+    (out, if nmoof > 0 { Some(init_len) } else { None })
 }
 
 /// Returns (bytes, init_len if a fragmented tail was generated).
